@@ -5,6 +5,7 @@ import json
 import random
 
 import p_recv
+import p_rsync
 from vlib import Broken, read_ndjson, write_ndjson
 
 
@@ -75,7 +76,10 @@ def mk_line(s, arr, judge, form="slash", rule_style="opt", repeat=False, extra_f
     nodes = lambda ns: [n for n in ns if n["p"] != "."] if False else ns
     return {"family": s.get("family", ""), "universe": s["universe"], "src": [n for n in s["src"] if n["p"] != "."], "dst": [n for n in s["dst"] if n["p"] != "."],
             "flags": p_recv.flags_of(s["opts"], s.get("rules", []), rule_style) + list(extra_flags), "arr": arr, "form": form, "judge": list(judge), "repeat": repeat,
-            "echo": {"opts": s["opts"], "rules": s.get("rules", []), "wild": wild}}
+            "echo": {"opts": s["opts"], "rules": s.get("rules", []), "wild": wild},
+            # library arrangements run over the instrumented transport: record the complete session
+            # transcript, validated action by action against the composed specification (RsyncTrace.tla)
+            "full": arr in ("lib", "libpush") and form == "slash" and not wild}
 
 
 def attach_peers(obs, lines):
@@ -102,6 +106,22 @@ def run_validate_confirm(w, fam, lines, label, v, counts, sigfn, peers=False):
     counts["traces"] = counts.get("traces", 0) + len(obs)
     counts["trace_states"] = counts.get("trace_states", 0) + dist
     counts["crashed"] = counts.get("crashed", 0) + summ["crashed"]
+    # action-level validation of the complete transcripts (library arrangements)
+    rows = p_rsync.rows_of(obs)
+    wrej = {}
+    if rows:
+        wrej, _, wdist = p_rsync.validate(w, fam, rows, label)
+        counts["wire_traces"] = counts.get("wire_traces", 0) + len(rows)
+        counts["wire_events"] = counts.get("wire_events", 0) + sum(len(r["events"]) for r in rows)
+        counts["wire_states"] = counts.get("wire_states", 0) + wdist
+        if not counts.get("wire_sample"):
+            acc = [r for r in rows if r["id"] not in wrej and len(r["events"]) > 12]
+            if acc:
+                counts["wire_sample"] = {"dir": acc[0]["dir"], "opts": acc[0]["opts"], "rules": acc[0]["rules"],
+                                         "events": [{k: v for k, v in e.items() if v not in (0, "", False)} for e in acc[0]["events"]]}
+        if len(rows) - len(wrej) >= 4 and not counts.get("wire_negctl"):
+            counts["wire_negctl"] = p_rsync.negative_controls(w, fam, rows, wrej, w.seed)
+        rej = set(rej) | set(wrej)
     if rej:
         byid = {ln["id"]: ln for ln in lines}
         again = [byid[i] for i in sorted(rej)]
@@ -112,11 +132,22 @@ def run_validate_confirm(w, fam, lines, label, v, counts, sigfn, peers=False):
         if peers:
             attach_peers(obs2, lines)
         rej2, _, _ = validate(w, fam, obs2, label + "-confirm")
+        wrej2, _, _ = p_rsync.validate(w, fam, p_rsync.rows_of(obs2), label + "-confirm")
+        wire_where = {}
+        rows2 = {r["id"]: r for r in p_rsync.rows_of(obs2)}
+        for i, l in wrej2.items():
+            ev = rows2[i]["events"]
+            wire_where[i] = {"events_explained": max(0, l - 1), "first_unexplained": (ev[l - 1] if 0 < l <= len(ev) else "end of session / final tree"),
+                             "parse_error": rows2[i]["parse_err"]}
+        rej2 = set(rej2) | set(wrej2)
         if set(rej) - set(rej2):
             raise Broken("rejections not reproduced on re-run: ids %s" % sorted(set(rej) - set(rej2))[:10])
         for o in obs2:
             if o["id"] in rej2:
-                v.violation(sigfn(o), {"arr": o["arr"], "form": o["form"], "flags": o["flags"], "src": slim_nodes(o["src"]), "dst": slim_nodes(o["dst"]),
+                sg = sigfn(o)
+                if o["id"] in wire_where:
+                    sg["wire"] = True
+                v.violation(sg, {"wire_level_rejection": wire_where.get(o["id"]), "arr": o["arr"], "form": o["form"], "flags": o["flags"], "src": slim_nodes(o["src"]), "dst": slim_nodes(o["dst"]),
                                        "final": slim_nodes(o["final"]), "extra": o["extra"], "result": o["result"], "err": str(o.get("err", ""))[:1500],
                                        "log": str(o.get("log", ""))[-1500:], "resent2": o.get("resent2"), "changed2": o.get("changed2")})
     return obs, rej
@@ -142,3 +173,11 @@ def negative_controls(w, fam, obs, rej, seed, n=30):
     if {c["id"] for c in bad} - nrej:
         raise Broken("negative control: damaged e2e runs accepted by SyncTrace")
     return len(bad)
+
+
+def wire_coverage(counts):
+    """Evidence keys of the action-level transcript validation (RsyncTrace.tla)."""
+    if not counts.get("wire_traces"):
+        return {}
+    return {"wire_transcripts_validated": counts["wire_traces"], "wire_events": counts.get("wire_events", 0), "wire_trace_states": counts.get("wire_states", 0),
+            "wire_negative_controls": counts.get("wire_negctl", 0), "wire_sample": counts.get("wire_sample")}
